@@ -214,6 +214,22 @@ EXTRA4 = {
  "C18": "to-lists with spare capacity (shorter and longer than from's, empty); thirteen pairs of ids that a shortcut takes for equivalent must be refused.",
  "C19": "Tags that agree in length and in their first eight bytes, histories of depth <= 3.",
 }
+# families added after the eighth round (DESIGN.md §8.14)
+EXTRA5 = {
+ "C01": "Lists whose members have different ids but are related otherwise (a link whose href is the other member, an object whose url is, twins but for the id of every struct type); endpoints that are embedded objects.",
+ "C02": "Every item property holding a list whose members all say nothing, alone and next to an id.",
+ "C03": "The related-member lists; the concrete Go type of bare lists through the package functions.",
+ "C04": "Cost growth measured in allocations at two depths (decoding an array of two equal chains; both encoders and formatting of the decoded value), bound x8; values of the wrong kind inside publicKey / endpoints / source.",
+ "C05": "The related-member lists.",
+ "C06": "Every type that has a text property x every text property it has, with texts that look like markup, character references or escapes to any layer.",
+ "C07": "Values carrying id and type and nothing else through the JSON and gob channels.",
+ "C09": "Comparison cost of chains through every item property of every type, measured in allocations at depths 8 and 16 (bound x8), then depth 130.",
+ "C10": "Presentations that need both stages of the IRI comparison; embedded presentations that are not copies of one another (other struct, type, scheme, an extra property).",
+ "C13": "Pools of the rarer object types, intransitive activities, collections and value forms.",
+ "C14": "Every path of <= 4 segments over a, b, .., ., empty (780 paths); ports at the edges of 8, 15 and 16 bits.",
+ "C15": "Hosts spelled like collection names; holders whose other collection properties, endpoints, streams, url and context are all set.",
+ "C16": "An id-less object that embeds items with ids; id-less links whose target is another entry's id.",
+}
 for pid, extra in EXTRA.items():
     checks[pid]["level_claimed"]["text"] += " " + extra
 for pid, extra in EXTRA3.items():
@@ -221,6 +237,8 @@ for pid, extra in EXTRA3.items():
 for pid, extra in EXTRA2.items():
     checks[pid]["level_claimed"]["text"] += " " + extra
 for pid, extra in EXTRA4.items():
+    checks[pid]["level_claimed"]["text"] += " " + extra
+for pid, extra in EXTRA5.items():
     checks[pid]["level_claimed"]["text"] += " " + extra
 
 manifest = {
